@@ -5,6 +5,7 @@ import (
 	"go/ast"
 	"go/token"
 	"go/types"
+	"sort"
 	"strings"
 
 	"golang.org/x/tools/go/cfg"
@@ -20,7 +21,7 @@ func init() {
 			"(R1) every function that places rows into a table chosen with user-supplied relation targets registers those targets; (R2) every caller of pool-recycle tests the target flag of the recycled entity and, when set, runs the cleanup and clears the flag; " +
 			"(R3) free protocol: at every site that frees a table (sets its free flag) the operation removes the table from all four lookup containers — the archetype's active list, the per-column target index, the per-target table index (for every target of the table) and every cached filter; tables put on a free list are marked free, tables taken from it are recycled; " +
 			"(R4) every path that activates a table registers it with the archetype and the filter cache; (R5) relation component/target validity checks precede taking or creating the table; (R6) exact table lookup compares whole entities (id and generation); " +
-			"(R7) the per-column target index is indexed by column index only; (R8) the target-validity check is unreachable from the target cleanup: after a batch removal the remaining targets of a table may be entities of the same batch that are still to be cleaned up, so validating them can only fail a valid call; (R9) the lookup containers are sets: a table id is appended to a table-id container outside loops, or to a container selected by the loop variable itself, or under a negative membership test; (R10 = C01/R8) the relation list a table is created or recycled with is never derived from a scratch buffer; (R11) a local slice or mask that is filled and consumed inside a loop but declared outside it (and not read after it) is emptied inside that loop, so that the relations collected for one table are not applied to the next; (R12) the per-target table index drops a target's entry only in the function that removes the target from every relation column, or under a test that the entry's own list is empty; (R13) a list that several objects may share is never overwritten in place: bulk in-place writes (append to a re-slice, copy into, or an append to a field that another function cuts back) into a slice field of a persistent object are admitted only when no list read from that field (of any object) can reach a store into a persistent field (path-sensitive taint analysis, through locals, parameters, helper results and retaining callees; the views that query objects hold while the world is locked are not owners); the per-column purge of the free protocol (R3) must run for every relation column: inside the loop over the columns it may depend only on the column being a relation column and on its own lookup. Not decided: multi-step target-death histories; that the protocols compose.",
+			"(R7) the per-column target index is indexed by column index only; (R8) the target-validity check is unreachable from the target cleanup: after a batch removal the remaining targets of a table may be entities of the same batch that are still to be cleaned up, so validating them can only fail a valid call; (R9) the lookup containers are sets: a table id is appended to a table-id container outside loops, or to a container selected by the loop variable itself, or under a negative membership test; (R10 = C01/R8) the relation list a table is created or recycled with is never derived from a scratch buffer; (R11) a local slice or mask that is filled and consumed inside a loop but declared outside it (and not read after it) is emptied inside that loop, so that the relations collected for one table are not applied to the next; (R12) the per-target table index drops a target's entry only in the function that removes the target from every relation column, or under a test that the entry's own list is empty; (R13) a list that several objects may share is never overwritten in place: bulk in-place writes (append to a re-slice, copy into, or an append to a field that another function cuts back) into a slice field of a persistent object are admitted only when no list read from that field (of any object) can reach a store into a persistent field (path-sensitive taint analysis, through locals, parameters, helper results and retaining callees; the views that query objects hold while the world is locked are not owners); the per-column purge of the free protocol (R3) must run for every relation column: inside the loop over the columns it may depend only on the column being a relation column and on its own lookup. (R14) a slice field that a function both walks and empties is walked before it is emptied: the walk is not reached, on every path, with the list just emptied and not refilled (free flags set over an already cleared list). Not decided: multi-step target-death histories; that the protocols compose.",
 		TrustedBase: []string{"go/types, go/cfg", "container purge summaries derived from loops over the lookup containers", "single-relation idiom: a table of an archetype with one relation has exactly one target"},
 		Rules: []Rule{
 			{ID: "C04/R1", Run: c04r1, Min: 1},
@@ -35,6 +36,7 @@ func init() {
 			{ID: "C01/R8", Run: c01r8, Min: 1},
 			{ID: "C04/R11", Run: c04r11, Min: 1},
 			{ID: "C04/R12", Run: c04r12, Min: 1},
+			{ID: "C04/R14", Run: c04r14, Min: 1},
 			{ID: "C04/R13", Run: c04r13, Min: 1},
 		},
 	})
@@ -374,12 +376,18 @@ func c04r2(c *core.Ctx) {
 			// the deferred loop over a list in function fn: cleans every element of the list and clears its flag
 			deferredLoop := func(fn *core.Func, list string) (cl, clr bool, pos token.Pos) {
 				core.InspectNoLits(fn.Body, func(n ast.Node) bool {
-					rs, ok := n.(*ast.RangeStmt)
-					if !ok || m.ExprString(rs.X) != list || rs.Value == nil {
+					// for _, e := range list {..}, or an index loop whose body reads list[i]
+					var v string
+					var lbody *ast.BlockStmt
+					if rs, ok := n.(*ast.RangeStmt); ok && m.ExprString(rs.X) == list && rs.Value != nil {
+						v, lbody = m.ExprString(rs.Value), rs.Body
+					} else if iv, over, body, ok := indexLoop(m, n); ok && m.ExprString(over) == list {
+						v, lbody = list+"["+iv.Name()+"]", body
+					}
+					if lbody == nil {
 						return true
 					}
-					v := m.ExprString(rs.Value)
-					ast.Inspect(rs.Body, func(y ast.Node) bool {
+					ast.Inspect(lbody, func(y ast.Node) bool {
 						switch x := y.(type) {
 						case *ast.CallExpr:
 							if len(x.Args) == 1 && aboutEnt(x.Args[0], v) {
@@ -1023,64 +1031,108 @@ func c04r4(c *core.Ctx) {
 		return
 	}
 	n := 0
-	for _, f := range m.Funcs {
-		var acts []ast.Node
-		core.InspectNoLits(f.Body, func(x ast.Node) bool {
-			switch y := x.(type) {
-			case *ast.AssignStmt:
-				for _, s := range m.DirectStores(f, y) {
-					if s.Path.Last() == "storage.tables" && s.Kind == core.StoreAssign && s.Path.Kind != core.RootFresh {
-						acts = append(acts, y)
-					}
-				}
-			case *ast.CallExpr:
-				if k, cal, _ := m.Callee(y); k == core.CallStatic && cal == recycle {
-					acts = append(acts, y)
+	lifted := map[*core.Func]bool{}
+	pending := map[*core.Func][]ast.Node{} // call sites of slot-taking helpers, to be treated as activation sites
+	funcs := append([]*core.Func{}, m.Funcs...)
+	// helpers first, so that their call sites are known when the callers are visited
+	sort.SliceStable(funcs, func(i, j int) bool {
+		ei := funcs[i].Obj != nil && funcs[i].Obj.Exported()
+		ej := funcs[j].Obj != nil && funcs[j].Obj.Exported()
+		return !ei && ej
+	})
+	for pass := 0; pass < 2; pass++ {
+		for _, f := range funcs {
+			var acts []ast.Node
+			if pass == 1 {
+				acts = pending[f]
+				if len(acts) == 0 {
+					continue
 				}
 			}
-			return true
-		})
-		for _, act := range acts {
-			n++
-			subject := fmt.Sprintf("%s activates a table (%s)", f.Name, c.At(act.Pos()))
-			addTable := func(x ast.Node) bool {
-				call, ok := x.(*ast.CallExpr)
-				if !ok {
-					return false
-				}
-				k, cal, _ := m.Callee(call)
-				if k != core.CallStatic || cal.Recv != "archetype" {
-					return false
-				}
-				for _, s := range c.Eff.Stores(cal) {
-					if s.Path.Has("archetype.tables") && s.Path.Kind == core.RootParam {
-						return cal.Sig.Params().Len() == 1
+			if pass == 0 {
+				core.InspectNoLits(f.Body, func(x ast.Node) bool {
+					switch y := x.(type) {
+					case *ast.AssignStmt:
+						for _, s := range m.DirectStores(f, y) {
+							if s.Path.Last() == "storage.tables" && s.Kind == core.StoreAssign && s.Path.Kind != core.RootFresh {
+								acts = append(acts, y)
+							}
+						}
+					case *ast.CallExpr:
+						if k, cal, _ := m.Callee(y); k == core.CallStatic && cal == recycle {
+							acts = append(acts, y)
+						}
+					}
+					return true
+				})
+			}
+			// a private helper that only takes the slot (recycle or append) and leaves the registration to its callers:
+			// its call sites are the activation sites
+			if pass == 0 && len(acts) > 0 && f.Obj != nil && !f.Obj.Exported() && !lifted[f] {
+				registers := false
+				for _, s := range c.Eff.Stores(f) {
+					if s.Path.Has("cacheEntry.tables") || (s.Path.Has("archetype.tables") && s.Path.Kind == core.RootParam) {
+						registers = true
 					}
 				}
-				return false
-			}
-			cacheAdd := func(x ast.Node) bool {
-				call, ok := x.(*ast.CallExpr)
-				if !ok {
-					return false
-				}
-				k, cal, _ := m.Callee(call)
-				if k != core.CallStatic || cal.Recv != "cache" {
-					return false
-				}
-				for _, s := range c.Eff.Stores(cal) {
-					if s.Path.Has("cacheEntry.tables") {
-						return true
+				if !registers {
+					var sites []core.CallSite
+					for _, cs := range m.CallSites() {
+						if cs.Callee == f {
+							sites = append(sites, cs)
+						}
+					}
+					if len(sites) > 0 {
+						lifted[f] = true
+						for _, cs := range sites {
+							pending[cs.Caller] = append(pending[cs.Caller], cs.Call)
+						}
+						continue
 					}
 				}
-				return false
 			}
-			okA := followedOnAllPaths(m, f, act, addTable)
-			okC := followedOnAllPaths(m, f, act, cacheAdd)
-			if okA && okC {
-				c.OK("C04/R4", subject, c.At(act.Pos()), "activated table is registered with the archetype (active list and per-target indices) and offered to the filter cache on every path")
-			} else {
-				c.Violation("C04/R4", subject, c.At(act.Pos()), fmt.Sprintf("%s activates a table but does not on every path register it with the archetype (%v) and the filter cache (%v)", f.Name, okA, okC))
+			for _, act := range acts {
+				n++
+				subject := fmt.Sprintf("%s activates a table (%s)", f.Name, c.At(act.Pos()))
+				addTable := func(x ast.Node) bool {
+					call, ok := x.(*ast.CallExpr)
+					if !ok {
+						return false
+					}
+					k, cal, _ := m.Callee(call)
+					if k != core.CallStatic || cal.Recv != "archetype" {
+						return false
+					}
+					for _, s := range c.Eff.Stores(cal) {
+						if s.Path.Has("archetype.tables") && s.Path.Kind == core.RootParam {
+							return cal.Sig.Params().Len() == 1
+						}
+					}
+					return false
+				}
+				cacheAdd := func(x ast.Node) bool {
+					call, ok := x.(*ast.CallExpr)
+					if !ok {
+						return false
+					}
+					k, cal, _ := m.Callee(call)
+					if k != core.CallStatic || cal.Recv != "cache" {
+						return false
+					}
+					for _, s := range c.Eff.Stores(cal) {
+						if s.Path.Has("cacheEntry.tables") {
+							return true
+						}
+					}
+					return false
+				}
+				okA := followedOnAllPaths(m, f, act, addTable)
+				okC := followedOnAllPaths(m, f, act, cacheAdd)
+				if okA && okC {
+					c.OK("C04/R4", subject, c.At(act.Pos()), "activated table is registered with the archetype (active list and per-target indices) and offered to the filter cache on every path")
+				} else {
+					c.Violation("C04/R4", subject, c.At(act.Pos()), fmt.Sprintf("%s activates a table but does not on every path register it with the archetype (%v) and the filter cache (%v)", f.Name, okA, okC))
+				}
 			}
 		}
 	}
@@ -1092,6 +1144,26 @@ func c04r4(c *core.Ctx) {
 				if s.Path.Has("cacheEntry.tables") {
 					reg = true
 				}
+			}
+			if !reg && cs.Caller.Obj != nil && !cs.Caller.Obj.Exported() {
+				// a private helper that only takes the slot: every caller of it must be an activation function
+				callers, all := 0, true
+				for _, cs2 := range m.CallSites() {
+					if cs2.Callee != cs.Caller {
+						continue
+					}
+					callers++
+					r2 := false
+					for _, s := range c.Eff.Stores(cs2.Caller) {
+						if s.Path.Has("cacheEntry.tables") {
+							r2 = true
+						}
+					}
+					if !r2 {
+						all = false
+					}
+				}
+				reg = callers > 0 && all
 			}
 			if !reg {
 				c.Violation("C04/R4", cs.Caller.Name+" recycles a table", c.At(cs.Call.Pos()), cs.Caller.Name+": recycles a free table outside the activation protocol")
@@ -1219,32 +1291,40 @@ func c04r5(c *core.Ctx) {
 			// before the call) or the target cleanup
 			okAll, n := true, 0
 			var badCaller string
-			for _, cs := range m.CallSites() {
-				if cs.Callee != f {
-					continue
-				}
-				n++
-				if cleanup[cs.Caller] {
-					c.OK("C04/R5", cs.Caller.Name+" -> "+f.Name, c.At(cs.Call.Pos()), "target cleanup: relations are the table's own targets (rule R8)")
-					continue
-				}
-				crp := relationIDsParam(cs.Caller)
-				passes := false
-				for _, a := range cs.Call.Args {
-					if id, ok := ast.Unparen(a).(*ast.Ident); ok && crp != nil && m.Info.ObjectOf(id) == crp {
-						passes = true
+			var viaCallers func(g *core.Func, depth int)
+			viaCallers = func(g *core.Func, depth int) {
+				for _, cs := range m.CallSites() {
+					if cs.Callee != g {
+						continue
+					}
+					n++
+					if cleanup[cs.Caller] {
+						c.OK("C04/R5", cs.Caller.Name+" -> "+g.Name, c.At(cs.Call.Pos()), "target cleanup: relations are the table's own targets (rule R8)")
+						continue
+					}
+					crp := relationIDsParam(cs.Caller)
+					passes := false
+					for _, a := range cs.Call.Args {
+						if id, ok := ast.Unparen(a).(*ast.Ident); ok && crp != nil && m.Info.ObjectOf(id) == crp {
+							passes = true
+						}
+					}
+					cb, cEnd := false, token.NoPos
+					if crp != nil {
+						cb, cEnd = checkLoop(cs.Caller, crp)
+					}
+					switch {
+					case passes && cb && cEnd < cs.Call.Pos():
+						c.OK("C04/R5", cs.Caller.Name+" -> "+g.Name, c.At(cs.Call.Pos()), "component and target of every relation are checked before the table is taken or created")
+					case passes && !cb && depth < 3 && cs.Caller.Obj != nil && !cs.Caller.Obj.Exported():
+						// an unchecked helper in between: its own callers decide
+						viaCallers(cs.Caller, depth+1)
+					default:
+						okAll, badCaller = false, cs.Caller.Name
 					}
 				}
-				cb, cEnd := false, token.NoPos
-				if crp != nil {
-					cb, cEnd = checkLoop(cs.Caller, crp)
-				}
-				if passes && cb && cEnd < cs.Call.Pos() {
-					c.OK("C04/R5", cs.Caller.Name+" -> "+f.Name, c.At(cs.Call.Pos()), "component and target of every relation are checked before the table is taken or created")
-				} else {
-					okAll, badCaller = false, cs.Caller.Name
-				}
 			}
+			viaCallers(f, 0)
 			if !okAll || n == 0 {
 				c.Violation("C04/R5", subject, c.At(f.Pos()), fmt.Sprintf("%s creates tables without checking relation component and target of every supplied relation, and its caller %s does not do so either", f.Name, badCaller))
 			}
